@@ -87,7 +87,7 @@ fn run_extract(m: &Metainfo) -> Result<(), ()> {
 }
 
 /// C03: `ex <pl> <len,len,…> x<content>` → the extracted files' bytes.
-fn op_ex(pl: usize, lens: &str, content: &[u8]) -> String {
+fn op_ex(pl: usize, lens: &str, content: &[u8], stale: bool) -> String {
     let lens: Vec<usize> = if lens == "-" { vec![] } else { lens.split(',').map(|x| x.parse().unwrap()).collect() };
     let files: Vec<(usize, Vec<u8>)> = lens.iter().enumerate().map(|(k, l)| (*l, format!("f{}", k).into_bytes())).collect();
     let doc = torrent(b"out", pl, &files, content, true);
@@ -98,6 +98,16 @@ fn op_ex(pl: usize, lens: &str, content: &[u8]) -> String {
     let (base, canary) = scratch("ex");
     std::env::set_current_dir(canary.join("cwd")).unwrap();
     write_pieces(pl, content);
+    if stale {
+        // the download directory is not fresh: an earlier, longer version of every output file is already there
+        for (k, (l, _)) in files.iter().enumerate() {
+            let p = if files.len() > 1 { format!("out/f{}", k) } else { format!("f{}", k) };
+            if files.len() > 1 {
+                let _ = std::fs::create_dir_all("out");
+            }
+            let _ = std::fs::write(&p, vec![0xEEu8; l + 1 + k * 5]);
+        }
+    }
     let r = run_extract(&m);
     let mut outs = vec![];
     for (k, _) in files.iter().enumerate() {
@@ -270,7 +280,8 @@ fn op_exq(name: &[u8], paths: &str) -> String {
 
 pub fn run03(args: &[&str]) -> String {
     match args[0] {
-        "ex" => op_ex(args[1].parse().unwrap(), args[2], &unhex(args[3])),
+        "ex" => op_ex(args[1].parse().unwrap(), args[2], &unhex(args[3]), false),
+        "exs" => op_ex(args[1].parse().unwrap(), args[2], &unhex(args[3]), true),
         "geo" => op_geo(args[1].parse().unwrap(), args[2]),
         _ => panic!("unknown C03 op"),
     }
@@ -309,7 +320,7 @@ pub fn gen03(r: &mut Rng, n: usize) -> Vec<String> {
         if k % 4 == 3 || total > 70000 {
             out.push(format!("geo {} {}", pl, lens_s));
         } else {
-            out.push(format!("ex {} {} {}", pl, lens_s, hex(&r.bytes(total))));
+            out.push(format!("{} {} {} {}", if k % 3 == 1 { "exs" } else { "ex" }, pl, lens_s, hex(&r.bytes(total))));
         }
     }
     out
